@@ -215,16 +215,16 @@ each `ReportFailure` is atomic, so the outcomes are the sequential executions of
 pick_A · (some of A's failure reports) · pick_B · (the other reports of A and those of B) —
 give-backs commute, only their position relative to B's pick matters. (A direct delivery does not
 consult the algorithm: A is over before B starts.) -/
-def overlapOutcomes (s : Node) (env : Env) : List Node :=
-  if !s.stored || s.conn.contains s.dest then [run {} s [.tick env, .tick env]]
+def overlapOutcomes (s : Node) (envA envB : Env) : List Node :=
+  if !s.stored || s.conn.contains s.dest then [run {} s [.tick envA, .tick envB]]
   else
-    let (chA, md1) := choose s env
-    let sendsA := mkSends s env chA
+    let (chA, md1) := choose s envA
+    let sendsA := mkSends s envA chA
     let repA := mkReports s.algo sendsA
     (splits repA).map fun (early, late) =>
       let sB : Node := { s with md := giveBackAll {} s.algo md1 early }
-      let (chB, md2) := choose sB env
-      let sendsB := mkSends sB env chB
+      let (chB, md2) := choose sB envB
+      let sendsB := mkSends sB envB chB
       let repB := mkReports s.algo sendsB
       { s with md := giveBackAll {} s.algo md2 (late ++ repB), log := s.log ++ sendsA ++ sendsB }
 
@@ -268,11 +268,12 @@ def handle (line : String) : String :=
             | none => (s, some s!"bad-event {e.ev}")
             | some mevs =>
               if e.kind == 'O' then
-                -- which of the two runs got which sender first is not observable: try every order
+                -- the manager lists its senders in an arbitrary order, anew for each run: try all pairs
                 let seen := (e.obs.sends.map (·.peer)).eraseDups
-                let orders := if seen.length ≤ 5 then perms seen else [seen]
-                let outs := orders.flatMap fun o =>
-                  overlapOutcomes s { order := o ++ List.range n, fails := e.fails }
+                let orders := if seen.length ≤ 4 then perms seen else [seen]
+                let outs := orders.flatMap fun oa => orders.flatMap fun ob =>
+                  overlapOutcomes s { order := oa ++ List.range n, fails := e.fails }
+                    { order := ob ++ List.range n, fails := e.fails }
                 let io := implObs e.obs
                 match outs.find? (fun s' => modelObs s s' == io) with
                 | some s' => (s', none)
